@@ -11,6 +11,7 @@ inductive PatchPayload where
   | result (v : Json)
   | error (e : RpcError)
   | callback (tag : String)        -- the callback returns ["callback", tag, params]
+  | callbackRaises                 -- the callback raises: the exception reaches the caller of the transport
   | nothing                        -- neither result nor error configured: Response() asserts
   deriving Repr, DecidableEq, Inhabited
 
@@ -92,6 +93,7 @@ def callbackValue (tag : String) (params : Params) : Json := .arr [.str "callbac
 def patchReply (p : Patch) (params : Params) (id : Option ReqId) : Py Response :=
   match p.payload with
   | .callback tag => Response.construct id (.set (callbackValue tag params)) .unset
+  | .callbackRaises => .raised (.other "CallbackError")
   | .result v => Response.construct (id.orElse fun _ => p.cfgId) (.set v) .unset
   | .error e => Response.construct (id.orElse fun _ => p.cfgId) .unset (.set e)
   | .nothing => Response.construct (id.orElse fun _ => p.cfgId) .unset .unset
